@@ -42,10 +42,9 @@ PROPS["C01"] = dict(
          "shards own disjoint types so per-shard counts add up",
     assumptions=COMMON_ASSUMPTIONS + ["BinaryHeap element order is unspecified: heaps are compared as multisets of the decoded bytes"],
     required=[("types_exercised", 200), ("borrowed_forms", 1000), ("bitslice_offsets", 100)],
-    stages=lambda tier: [native()] + ([
-        miri(runtime="miri-s390x", name="miri-s390x", values=12),
-        miri(runtime="miri-i686", name="miri-i686", values=12),
-    ] if tier == "thorough" else []),
+    stages=lambda tier: [native(),
+                         miri(runtime="miri-s390x", name="miri-s390x", shards=32, values=1 if tier == "quick" else 25),
+                         miri(runtime="miri-i686", name="miri-i686", shards=32, values=1 if tier == "quick" else 25)],
 )
 
 PROPS["C02"] = dict(
@@ -178,11 +177,11 @@ PROPS["C09"] = dict(
          "allocator (peak live bytes, largest single request). Non-trivial = hostile input whose claimed count exceeds what the payload can deliver; "
          "distinct = hash set of (type, input bytes, input kind)",
     assumptions=["oracle A (count independence): peak and largest request for the larger claimed count may exceed those for the smaller by at most 4 KiB",
-                 "oracle B (absolute): peak <= 8*alpha*delivered + levels*80 KiB + 8*size_of(T) + 8 KiB with alpha = max over container levels of "
+                 "oracle B (absolute): peak <= 16*alpha*delivered + levels*80 KiB + 8*size_of(T) + 8 KiB with alpha = max over container levels of "
                  "element memory / minimal element encoding; kept because the honest+hostile corpus stays below 25% of it (worst ratio in the evidence)",
                  "the counting allocator sees every heap request of the process; each shard is single-threaded"],
     required=[("types_exercised", 100), ("hostile_pairs", 5000), ("hostile_rejected", 3000), ("via:Unknown", 1000), ("via:Shared", 1000),
-              ("hostile:bits", 100), ("hostile:str", 100), ("calibration_runs", 1)],
+              ("hostile:bits", 100), ("hostile:str", 100), ("calibration_runs", 1), ("plausible_count_cases", 5000), ("nested_plausible_cases", 18)],
     stages=lambda tier: [native(), native(runtime="release", name="release", slow=2)],
 )
 
